@@ -143,7 +143,7 @@ func runC06(c *Ctx) {
 					return "sig"
 				case raw == "p2":
 					return "parentOnly"
-				case raw == "nil:p0.cmd":
+				case raw == "nil:p0."+p.Field("command", "CmdWrapper", "cmd").Name():
 					return "nocmd"
 				case strings.HasPrefix(raw, "call:syscall.Getpgid(") && strings.HasSuffix(raw, "#0"):
 					return "pgid"
